@@ -202,7 +202,8 @@ def BreachSpec (e : Enf) (ev : Raw) : Breach → Prop
   | .scalarBytes n => n = satAdd e.report.totalScalarBytes (scalarBytesOf ev) ∧ n > e.lim.maxTotalScalarBytes
   | .depth n => isStart ev = true ∧ n = max e.report.maxDepth (satAdd e.depth 1) ∧ n > e.lim.maxDepth
   | .mergeKeys n => mkOf e.containers ev = 1 ∧ n = e.report.mergeKeys + 1 ∧ n > e.lim.maxMergeKeys
-  | .ratio _ _ => False
+  | .ratio a n => e.perDocument = true ∧ ev = .docEnd ∧ e.report.events + 1 ≤ e.lim.maxEvents ∧
+      e.ratioBreach = some (.ratio a n)
   | .unbalanced => isEnd ev = true ∧ (e.depth = 0 ∨ wf e.containers ev = false)
 
 /-- the within-limits part of the state -/
@@ -393,6 +394,31 @@ theorem observe_outcome_frame (e : Enf) (ev : Raw) (hf : isStreamFrame ev = true
   · simp only [hf, Bool.and_true, if_true, Outcome]
     exact ⟨by simp [next, hpd, hd, hf], id⟩
 
+/-- the ratio heuristic does not look at the event counter -/
+theorem ratioBreach_events (e : Enf) (k : Nat) :
+    ({ e with report := { e.report with events := k } }).ratioBreach = e.ratioBreach := rfl
+
+theorem observe_outcome_docEnd (e : Enf) : Outcome e .docEnd (e.observe .docEnd) := by
+  rw [observe_plain e rfl rfl]
+  simp only [Enf.observeCounted, ratioBreach_events]
+  split
+  · fin
+  · split
+    · rename_i hpd
+      split
+      · rename_i b hb
+        have : ∃ a n, b = .ratio a n := by
+          simp only [Enf.ratioBreach] at hb
+          split at hb
+          · exact ⟨_, _, (Option.some.inj hb).symm⟩
+          · cases hb
+        obtain ⟨a, n, rfl⟩ := this
+        simp only [Outcome, BreachSpec, pro, isDocStart, Bool.and_false, Bool.false_eq_true, if_false]
+        rename_i hev
+        exact ⟨hpd, trivial, by omega, hb⟩
+      · fin
+    · fin
+
 theorem observe_outcome (e : Enf) (ev : Raw) : Outcome e ev (e.observe ev) := by
   cases ev with
   | scalar v st a tag => exact observe_outcome_scalar e v st a tag
@@ -402,7 +428,7 @@ theorem observe_outcome (e : Enf) (ev : Raw) : Outcome e ev (e.observe ev) := by
   | seqEnd => exact observe_outcome_seqEnd e
   | alias id => exact observe_outcome_alias e id
   | docStart x => exact observe_outcome_docStart e x
-  | docEnd => rw [observe_plain e rfl rfl]; simp only [Enf.observeCounted]; split <;> fin
+  | docEnd => exact observe_outcome_docEnd e
   | nothing => rw [observe_plain e rfl rfl]; simp only [Enf.observeCounted]; split <;> fin
   | streamStart => exact observe_outcome_frame e _ rfl
   | streamEnd => exact observe_outcome_frame e _ rfl
@@ -922,13 +948,17 @@ end fresh
 theorem finalize_fst (e : Enf) : e.finalize.1 = { e.report with anchors := e.defined.length } := by
   unfold Enf.finalize; simp only []; split <;> rfl
 
-theorem finalize_snd (e : Enf) :
+theorem finalize_snd (e : Enf) (hpd : e.perDocument = false) :
     e.finalize.2 =
       if (e.lim.enforceRatio && decide (e.finalize.1.aliases ≥ e.lim.minAliases) &&
           (e.finalize.1.anchors == 0 || decide (e.finalize.1.aliases > satMul e.lim.multiplier e.finalize.1.anchors))) = true
       then some (.ratio e.finalize.1.aliases e.finalize.1.anchors) else none := by
   rw [finalize_fst]
-  unfold Enf.finalize; simp only []; split <;> rfl
+  unfold Enf.finalize; simp only [hpd, Bool.not_false, if_true]; rfl
+
+/-- per-document policy: `finalize` does not judge the ratio (every `DocumentEnd` did) -/
+theorem finalize_snd_pd (e : Enf) (hpd : e.perDocument = true) : e.finalize.2 = none := by
+  unfold Enf.finalize; simp [hpd]
 
 theorem gt_satMul {a : Nat} (m k : Nat) (ha : a ≤ USIZE_MAX) : a > satMul m k ↔ a > m * k := by
   unfold satMul; split <;> omega
@@ -1332,6 +1362,7 @@ theorem counter_unbalanced (M : Nat) (hM : M = USIZE_MAX) :
       omega
     cases b <;> simp only [BreachSpec, fresh_lim] at hb
     case unbalanced => exact ⟨j, rfl⟩
+    case ratio a n => simp [Enf.new] at hb
     case events n => rw [fresh_events] at hb; simp only [bigLim] at hb; omega
     case nodes n =>
       rw [fresh_nodes] at hb; have := nNodes_le_length pre; simp only [bigLim] at hb; omega
